@@ -787,8 +787,9 @@ class Walker:
       el = Seq([k if start is None else k + start, self.elem(src, k)])
       self.bind(target, el, st, node)
       return
-    if a is not None and a.kind == "zip":
-      self.bind(target, Seq([self.elem(x, k) for x in a.args]), st, node)
+    if a is not None and a.kind in ("zip", "zip_longest"):
+      srcs = [x for x in a.args if not (isinstance(x, Poly) and x.as_atom() is not None and x.as_atom().kind == "kw")]
+      self.bind(target, Seq([self.elem(x, k) for x in srcs]), st, node)
       return
     if a is not None and a.kind == "range":
       ar = a.args
@@ -1024,7 +1025,7 @@ class Walker:
     ends = []   # states at the end of an iteration (fall/continue): candidates for the final values
     since = len(h.trace)
     info["pre_state"] = st
-    visit = {"pre": st, "head": h, "k": k, "iter": itv, "hyps": dict(hyps), "since": since}
+    visit = {"pre": st.fork(), "head": h.fork(), "k": k, "iter": itv, "hyps": dict(hyps), "since": since}
     if not self.quiet:
       info.setdefault("visits", []).append(visit)
     body_paths = info.setdefault("body_paths", []) if not self.quiet else []
